@@ -8,6 +8,7 @@ import (
 	"math/rand/v2"
 	"strconv"
 	"strings"
+	"unicode/utf8"
 
 	"verif/harness/internal/gen"
 	"verif/harness/internal/model"
@@ -644,6 +645,25 @@ func c13Body(c *run.Ctx) {
 			default:
 				kC13.Do(c, c13Case{Law: l.name, In: run.TV{V: v}})
 			}
+		}
+	}
+	// A2. strings whose byte length lies around the sizes of fixed buffers and blocks (and is 0, 1, 2 modulo 3 and 4),
+	// made of one- to four-byte characters
+	for _, n := range []int{62, 63, 64, 65, 127, 128, 129, 255, 256, 257, 511, 512, 513, 1022, 1023, 1024, 1025, 1026, 1027, 2047, 2048, 2049, 3071, 3072, 3073, 4095, 4096, 4097, 8191, 8192, 8193, 16385, 32769, 65537, 100001} {
+		for vi, unit := range []string{"a", "ab~", "é", "aé", "日", "a😀", "\"\\", "%2f+ &"} {
+			if c.Quick() && n > 5000 && vi%3 != 0 {
+				continue
+			}
+			str := strings.Repeat(unit, n/len(unit)+1)
+			str = str[:n]
+			for !utf8.ValidString(str) {
+				str = str[:len(str)-1]
+			}
+			for _, l := range []string{"explode|implode", "@base64|@base64d", "@uri|@urid", "tojson|fromjson", "fromstream(tostream)"} {
+				kC13.Do(c, c13Case{Law: l, In: run.TV{V: str}})
+			}
+			kC13.Do(c, c13Case{Law: "split(s)|join(s)", In: run.TV{V: str}, Arg: tvp(string([]rune(unit)[:1]))})
+			kC13.Do(c, c13Case{Law: "tojson|fromjson", In: run.TV{V: []any{str, map[string]any{str[:min(len(str), 300)]: str}}}})
 		}
 	}
 	// B. the date laws, one input per case
